@@ -178,7 +178,8 @@ fn cmd_ruler(a: &[&str]) -> String {
 fn cmd_eset(a: &[&str]) -> String {
     let mut s = ErasedSet::new();
     let mut out: Vec<String> = vec![];
-    fn o(x: Option<String>) -> String { x.unwrap_or_else(|| "-".into()) }
+    // the String-typed slot prints its default (empty) value as "0", like the numeric slots
+    fn o(x: Option<String>) -> String { match x { None => "-".into(), Some(s) if s.is_empty() => "0".into(), Some(s) => s } }
     for op in a[0].split(';') {
         if op.is_empty() { continue; }
         let (c, rest) = op.split_at(1);
@@ -212,7 +213,7 @@ fn cmd_eset(a: &[&str]) -> String {
                 1 => { s.get_or_insert_with(|| Z1); "z".into() }
                 2 => s.get_or_insert(TA(v)).0.to_string(),
                 3 => s.get_or_insert_with(|| TB(v)).0.to_string(),
-                _ => s.get_or_insert(TS(v.to_string())).0.clone(),
+                _ => { let x = s.get_or_insert(TS(v.to_string())).0.clone(); if x.is_empty() { "0".into() } else { x } }
             },
             "d" => match t {
                 0 => { s.get_or_insert_default::<Z0>(); "z".into() }
